@@ -3,7 +3,9 @@ Cases: io.sync <stream> <terminal error 50=EOF|60=reader error> <bufio size> <un
          model: Sync over the reader ORACLE; real: Sync over bufio.Reader over a fragmenting reader
        io.syncb <read script> <bufio size>
          model: Sync over the MODEL of bufio.Reader (Model/Bufio.v) over the scripted reader;
-         real: Sync over the real bufio.NewReaderSize over the same script."""
+         real: Sync over the real bufio.NewReaderSize over the same script.
+       bufio.ops <read script> <bufio size> <ops>
+         the bufio MODEL against the real bufio.Reader call by call (ReadByte/UnreadByte/Peek n/Read k); fidelity only."""
 from vlib import Case, hx, parse_val
 
 PROP = "C16"
@@ -15,7 +17,8 @@ RULE = ("streams = garbage prefix containing 0..5 false sync bytes (0x47 followe
         "(sync/non-sync x AFC x PID class) at offsets 0..4 are enumerated completely; the same streams as read scripts "
         "(chunks of 1,2,3,5,7,16,17,47 bytes, random cuts, one chunk; EOF or error with or after the last data) through the "
         "bufio model and the real bufio.Reader with sizes 0(=16),16,17,20,32,188,4096 (op io.syncb), also with zero-length "
-        "reads interleaved; 99/100/101 consecutive zero-length reads (io.ErrNoProgress) as fidelity cases; non-trivial = the stream contains at least one 0x47 (the unread/peek "
+        "reads interleaved; 99/100/101 consecutive zero-length reads (io.ErrNoProgress) and random ReadByte/UnreadByte/Peek/Read "
+        "call sequences on the bufio model vs the real bufio.Reader (op bufio.ops) as fidelity cases; non-trivial = the stream contains at least one 0x47 (the unread/peek "
         "path is taken)")
 EXHAUSTIVE = False
 EXHAUSTIVE_NOTE = ("the header classes (first byte 0x47/other x AFC 0..3 x PID in {0,3,4,5,15,16,0x1fff}) x offset 0..4 x false-sync "
@@ -184,8 +187,48 @@ def gen_bufio(rng, tier):
     return out
 
 
+def mkops(sc, size, ops, kind="fidelity-bufio-ops"):
+    line = "bufio.ops [ %s ] %d [ %s ]" % (" ".join("[ %s %d ]" % (hx(c), e) for c, e in sc), size,
+                                             " ".join("[ %s ]" % " ".join(str(x) for x in o) for o in ops))
+    return Case(line, kind=kind, decides=False, nontrivial=False, theorem="C16_sync_over_bufio")
+
+
+def gen_bufio_ops(rng, tier):
+    """the transcription of bufio.Reader (Model/Bufio.v) against the real one, call by call, on every branch:
+    ReadByte / UnreadByte (also after a failed ReadByte, twice in a row, after Peek) / Peek n (0..size+2) /
+    Read k (0, small, >= buffer size: the direct-read path).  Fidelity only: bufio is not gots."""
+    out = []
+    for _ in range(500 if tier == "quick" else 20000):
+        data = bytes(rng.randrange(256) for _ in range(rng.choice([0, 1, 3, 15, 16, 17, 40, 100])))
+        frag = rng.choice(BFRAGS); term = rng.choice(BTERMS)
+        sc = bscript(rng, data, frag, term, empties=rng.choice([0.0, 0.0, 0.3]))
+        if rng.random() < 0.1 and sc:
+            j = rng.randrange(len(sc))
+            sc[j] = (sc[j][0], rng.choice([50, 60]))
+        size = rng.choice([0, 16, 17, 20, 32])
+        cap = max(size, 16)
+        ops = []
+        for _ in range(rng.randrange(1, 40)):
+            r = rng.random()
+            if r < 0.45:
+                ops.append((0,))
+            elif r < 0.65:
+                ops.append((1,))
+            elif r < 0.85:
+                ops.append((2, rng.choice([0, 1, 4, 4, cap - 1, cap, cap + 1, cap + 2, rng.randrange(0, cap + 1)])))
+            else:
+                ops.append((3, rng.choice([0, 1, 3, cap - 1, cap, cap + 5, 2 * cap, rng.randrange(0, 2 * cap)])))
+        out.append(mkops(sc, size, ops))
+    # targeted: UnreadByte after a failed ReadByte (bufio's r == 0 && w == 0 branch), double UnreadByte, after Peek
+    for term in BTERMS:
+        sc = bscript(rng, b"\x01\x02", 1, term)
+        out.append(mkops(sc, 16, [(0,), (0,), (0,), (1,), (0,), (0,), (1,), (1,), (2, 1), (1,), (0,)]))
+        out.append(mkops(sc, 16, [(1,), (2, 4), (0,), (1,), (2, 2), (3, 1), (1,), (0,), (0,), (0,)]))
+    return out
+
+
 def gen(rng, tier):
-    out = gen_bufio(rng, tier)
+    out = gen_bufio(rng, tier) + gen_bufio_ops(rng, tier)
     # 1. complete enumeration: header classes x offset x number of false syncs, smallest buffers, every mode
     pids = [0, 3, 4, 5, 15, 16, 0x1fff]
     for first in (SYNC, 0x46):
@@ -265,7 +308,19 @@ def shrink_b(c):
         yield mkb(sc, 16, c.kind, c.decides)
 
 
+def _oparts(c):
+    v = parse_val("[" + c.line.partition(" ")[2] + "]")
+    return [(bytes(ch), e) for ch, e in v[0]], v[1], [tuple(o) for o in v[2]]
+
+
 def shrink(c):
+    if c.line.startswith("bufio.ops"):
+        sc, size, ops = _oparts(c)
+        for i in range(len(ops)):
+            yield mkops(sc, size, ops[:i] + ops[i + 1:], c.kind)
+        for i in range(min(len(sc), 30)):
+            yield mkops(sc[:i] + sc[i + 1:], size, ops, c.kind)
+        return
     if c.line.startswith("io.syncb"):
         yield from shrink_b(c)
         return
@@ -292,7 +347,7 @@ def shrink(c):
 
 
 def search(c, rng):
-    if c.line.startswith("io.syncb"):
+    if c.line.startswith("io.syncb") or c.line.startswith("bufio.ops"):
         for c2 in gen_bufio(rng, "quick")[:300]:
             if c2.decides:
                 yield c2
@@ -305,6 +360,9 @@ def search(c, rng):
 
 
 def case_of_line(line, kind):
+    if line.startswith("bufio.ops"):
+        sc, size, ops = _oparts(Case(line))
+        return mkops(sc, size, ops, kind or "fidelity-bufio-ops")
     if line.startswith("io.syncb"):
         sc, size = _bparts(Case(line))
         return mkb(sc, size, kind or "replay", decides=not (kind or "").startswith("fidelity"))
